@@ -335,6 +335,7 @@ pub fn run(a: &Args) -> ShardOut {
                 DriveCfg {
                     p_psk: (1, 2),
                     p_race: (0, 1),
+                    p_external_commit: (1, 4),
                     ..DriveCfg::default()
                 },
             )
